@@ -7,6 +7,7 @@ only at decisions beyond the replayed prefix.  Because a path owns all of its
 state, ordinary mutable Python containers serve as the heap.
 """
 import ast
+import os
 import builtins
 import enum
 import inspect
@@ -163,9 +164,17 @@ class Path(object):
         self.pos = 0
         self.alternatives = []
         self.pc = []
-        self.solver = z3.Solver()
-        self.solver.set("timeout", 10000)
+        # In-path decisions (branch feasibility, validity shortcuts, small-value
+        # enumeration) use only an *arithmetic abstraction* of the path condition:
+        # sequences are replaced by their lengths, sequence atoms by fresh booleans.
+        # The abstraction is weaker than pc, so `unsat` answers are sound and `sat`
+        # answers merely keep a path alive.  The full pc (with sequence theory)
+        # is used by prove()/fail(), in a forked child with a hard time limit.
+        self.solver = z3.SolverFor("QF_LIA") if False else z3.Solver()
+        self.solver.set("timeout", int(os.environ.get("VERIF_BRANCH_TIMEOUT_MS", "2500")))
         self.solver.set("random_seed", 0)
+        self._abs_cache = {}
+        self._len_cache = {}
         self.trace = []
         self.inputs = {}          # name -> value (for counterexamples)
         self.known = {}
@@ -189,9 +198,83 @@ class Path(object):
         if z3.is_false(c):
             raise Infeasible()
         self.pc.append(c)
+        self.solver.add(self.abs_expr(c))
+
+    # -- arithmetic abstraction
+    def _side(self, c):
         self.solver.add(c)
 
+    def len_of(self, s):
+        key = s.get_id()
+        hit = self._len_cache.get(key)
+        if hit is not None:
+            return hit[1]
+        r = None
+        if z3.is_app(s):
+            k = s.decl().kind()
+            if k == z3.Z3_OP_SEQ_CONCAT:
+                r = self.len_of(s.arg(0))
+                for i in range(1, s.num_args()):
+                    r = r + self.len_of(s.arg(i))
+            elif k == z3.Z3_OP_SEQ_UNIT:
+                r = z3.IntVal(1)
+            elif k == z3.Z3_OP_SEQ_EMPTY:
+                r = z3.IntVal(0)
+            elif k == z3.Z3_OP_ITE:
+                r = z3.If(self.abs_expr(s.arg(0)), self.len_of(s.arg(1)), self.len_of(s.arg(2)))
+        if r is None:
+            r = z3.Int("len!%d" % key)
+            self._side(r >= 0)
+        self._len_cache[key] = (s, r)
+        return r
+
+    def abs_expr(self, e):
+        key = e.get_id()
+        hit = self._abs_cache.get(key)
+        if hit is not None:
+            return hit[1]
+        r = None
+        if z3.is_quantifier(e):
+            r = z3.Bool("q!%d" % key)
+        elif z3.is_app(e):
+            k = e.decl().kind()
+            n = e.num_args()
+            if k == z3.Z3_OP_SEQ_LENGTH:
+                r = self.len_of(e.arg(0))
+            elif n == 0:
+                r = e
+            else:
+                kids = [e.arg(i) for i in range(n)]
+                seq_kid = any(z3.is_seq(c) for c in kids)
+                if seq_kid:
+                    if k == z3.Z3_OP_EQ and z3.is_seq(kids[0]) and z3.is_seq(kids[1]):
+                        r = z3.Bool("seqeq!%d" % key)
+                        self._side(z3.Implies(r, self.len_of(kids[0]) == self.len_of(kids[1])))
+                    elif k == z3.Z3_OP_DISTINCT and n == 2:
+                        r = z3.Bool("seqne!%d" % key)
+                    elif z3.is_bool(e):
+                        r = z3.Bool("seqatom!%d" % key)
+                    elif z3.is_int(e):
+                        r = z3.Int("seqterm!%d" % key)
+                    else:
+                        r = z3.Const("seqany!%d" % key, e.sort())
+                else:
+                    try:
+                        r = e.decl()(*[self.abs_expr(c) for c in kids])
+                    except Exception:
+                        if z3.is_bool(e):
+                            r = z3.Bool("atom!%d" % key)
+                        elif z3.is_int(e):
+                            r = z3.Int("term!%d" % key)
+                        else:
+                            r = e
+        else:
+            r = e
+        self._abs_cache[key] = (e, r)
+        return r
+
     def _check(self, extra):
+        extra = self.abs_expr(extra)
         self.solver.push()
         try:
             self.solver.add(extra)
@@ -279,18 +362,51 @@ class Path(object):
         ts = z3.simplify(t)
         if z3.is_int_value(ts):
             return ts.as_long()
-        self.solver.push()
-        try:
-            if self.solver.check() != z3.sat:
-                return None
-            v = self.solver.model().eval(ts, model_completion=True)
-        finally:
-            self.solver.pop()
+        self._keep.append(ts)
+        ta = self.abs_expr(ts)
+        if self.solver.check() != z3.sat:
+            return None
+        v = self.solver.model().eval(ta, model_completion=True)
         if not z3.is_int_value(v):
             return None
         if self._check(ts != v) == 'unsat':
             return v.as_long()
         return None
+
+    def enumerate_small(self, t, limit=16):
+        """All values the integer term t can take under pc, if at most `limit`."""
+        if isinstance(t, int):
+            return [t]
+        ts = z3.simplify(t)
+        if z3.is_int_value(ts):
+            return [ts.as_long()]
+        key = ('enum', ts.get_id())
+        self._keep.append(ts)
+        if key in self.splits:
+            return self.splits[key]
+        vals = []
+        ta = self.abs_expr(ts)
+        self.solver.push()
+        try:
+            while len(vals) <= limit:
+                if self.solver.check() != z3.sat:
+                    break
+                v = self.solver.model().eval(ta, model_completion=True)
+                if not z3.is_int_value(v):
+                    vals = None
+                    break
+                vals.append(v.as_long())
+                self.solver.add(ta != v)
+            else:
+                vals = None
+        finally:
+            self.solver.pop()
+        if vals is not None and len(vals) > limit:
+            vals = None
+        if vals is not None:
+            vals.sort()
+        self.splits[key] = vals
+        return vals
 
     def choose(self, n, label="choice"):
         """Nondeterministic choice among n alternatives (no solver)."""
@@ -321,13 +437,18 @@ class Path(object):
             sess.record(ObligationResult(name, kind, 'proved', detail, None, self.path_id, 'simplifier'))
             return True
         t0 = time.time()
-        verdict, model, backend = solve.check(self.pc + [z3.Not(c)], want_model=True)
+        # cheap first: the arithmetic abstraction often suffices
+        if self._check(z3.Not(c)) == 'unsat':
+            sess.record(ObligationResult(name, kind, 'proved', detail, None, self.path_id, 'z3-lia',
+                                         time.time() - t0))
+            solve.stats["by_backend"]["z3"] += 1
+            return True
+        verdict, cex, backend = solve.check_forked(self.pc + [z3.Not(c)], self.concretize_inputs)
         dt = time.time() - t0
         if verdict == 'unsat':
             sess.record(ObligationResult(name, kind, 'proved', detail, None, self.path_id, backend, dt))
             return True
-        if verdict == 'sat' and model is not None:
-            cex = self.concretize_inputs(model)
+        if verdict == 'sat' and cex is not None:
             sess.record(ObligationResult(name, kind, 'failed', detail or str(c)[:400], cex,
                                          self.path_id, backend, dt))
             return False
@@ -338,11 +459,10 @@ class Path(object):
     def fail(self, name, kind, detail):
         """Record a violated obligation for which the path itself is the witness."""
         self.session.vc_count += 1
-        verdict, model, backend = solve.check(self.pc, want_model=True)
+        verdict, cex, backend = solve.check_forked(self.pc, self.concretize_inputs)
         if verdict == 'unsat':
             raise Infeasible()
-        cex = self.concretize_inputs(model) if model is not None else None
-        st = 'failed' if verdict == 'sat' else 'unknown'
+        st = 'failed' if (verdict == 'sat' and cex is not None) else 'unknown'
         self.session.record(ObligationResult(name, kind, st, detail, cex, self.path_id, backend))
 
     def ok(self, name, kind, detail=None):
@@ -361,7 +481,7 @@ class Path(object):
         return out
 
     # -- sequence refinement: S == units ++ S'
-    def split_fixed(self, seqterm, k):
+    def split_fixed(self, seqterm, k, maxval=0x10FFFF):
         """Given pc => len(seqterm) >= k, return (unit elements, rest term)."""
         key = (seqterm.get_id(), k)
         self._keep.append(seqterm)
@@ -372,7 +492,7 @@ class Path(object):
         eq = seqterm == z3.Concat(*([z3.Unit(e) for e in els] + [rest])) if k else seqterm == rest
         self.assume(eq)
         for e in els:
-            self.assume(z3.And(e >= 0, e <= 0x10FFFF))
+            self.assume(z3.And(e >= 0, e <= maxval))
         self.splits[key] = (els, rest)
         return els, rest
 
@@ -521,6 +641,9 @@ class Interp(object):
         self.depth = 0
         self.call_stack = []
         self.loop_counter = {}          # qualname -> ordinal of next loop
+        self.top_contract = None
+        self.ghost_globals = {}
+        self.prefer_variant = None
         from . import models
         self.models = models
 
@@ -659,6 +782,8 @@ class Interp(object):
             return self.models.SPEC_BUILTINS[n]
         if env.spec and n in SPEC_NAMES:
             return SPEC_NAMES[n]
+        if env.spec and n in self.ghost_globals:
+            return self.ghost_globals[n]
         if n in env.globals:
             return env.globals[n]
         if hasattr(builtins, n):
@@ -864,6 +989,15 @@ class Interp(object):
             return list(it.prefix)
         if isinstance(it, type) and issubclass(it, enum.Enum):
             return list(it)
+        if isinstance(it, self.models.SymRange):
+            if it.step == 1 and isinstance(it.start, int):
+                vals = self.path.enumerate_small(int_term(it.stop))
+                if vals is not None:
+                    for cand in vals:
+                        if self.path.branch(int_term(it.stop) == cand):
+                            return list(range(it.start, cand))
+                    raise Infeasible()
+            raise OutOfFragment("iteration over a symbolic range needs a loop invariant")
         if hasattr(it, '__iter__') and not is_symbolic(it):
             return list(it)
         raise OutOfFragment("iteration over %r needs a loop invariant" % (it,))
@@ -1195,7 +1329,12 @@ class Interp(object):
         k = self.loop_counter.get(id(env), 0)
         self.loop_counter[id(env)] = k + 1
         spec = None
-        c = lookup_contract(qn) if qn else None
+        tc = getattr(self, 'top_contract', None)
+        if tc is not None and qn == tc.qualname and self.depth == 1:
+            c = tc
+            qn = tc.key
+        else:
+            c = lookup_contract(qn) if qn else None
         if c is not None:
             spec = c.loops.get(k)
         return k, spec, qn
@@ -1342,7 +1481,11 @@ class Interp(object):
         except extract.FunctionNotFound:
             return self.models.native_call(self, fn, args, kwargs)
         qn = ex.qualname
-        c = lookup_contract(qn)
+        c = None
+        if self.prefer_variant:
+            c = lookup_contract(qn + '#' + self.prefer_variant)
+        if c is None:
+            c = lookup_contract(qn)
         if c is not None and not force_body and self.use_contracts and not c.inline \
                 and qn != self.top:
             from . import modular
